@@ -166,7 +166,7 @@ func CompilePOSIX(pattern string) (*Regex, error) {
 	if err != nil {
 		return nil, &meta.CompileError{Pattern: pattern, Err: err}
 	}
-	engine, err := meta.CompileRegexp(parsed, meta.DefaultConfig())
+	engine, err := meta.CompileRegexp(parsed, compileConfig())
 	if err != nil {
 		return nil, err
 	}
